@@ -29,12 +29,21 @@ def rflat (elem root : Val) : Tm → List RItem
   | .app2 o a b => .op o :: (rflat elem root a ++ rflat elem root b)
 
 theorem resolveItem_path_next (elem root : Val) (p : Path) :
-    (match resolveItem elem root false (.path p) with | .op o => o.getLeft | _ => false) = false := by
+    (resolveItem elem root false (.path p)).nextGet = false := by
   unfold resolveItem
   simp only [Bool.false_eq_true, ↓reduceIte]
-  split
-  · split <;> rfl
-  · split <;> rfl
+  cases Spec.Path.normal p
+  · simp only [Bool.false_eq_true, ↓reduceIte]
+    cases Spec.sel p elem root with
+    | nil => rfl
+    | cons v r => cases r <;> rfl
+  · simp only [↓reduceIte]
+    cases Spec.sel p elem root <;> rfl
+
+theorem flatMap_single {α β : Type} (f : α → β) (l : List α) : l.flatMap (fun v => [f v]) = l.map f := by
+  induction l with
+  | nil => rfl
+  | cons x l ih => simp [ih]
 
 theorem getLeft_of_cnt2 (o : Op) (h : o.cnt = 2) : o.getLeft = false := by
   cases o <;> simp [Op.cnt] at h <;> rfl
@@ -45,7 +54,7 @@ theorem getLeft_ne_count (o : Op) (h : o ≠ .count) : o.getLeft = false := by
 theorem resolve_flatten (elem root : Val) (t : Tm) :
     t.wf = true → ∀ rest, resolve elem root false (flatten t ++ rest) = rflat elem root t ++ resolve elem root false rest := by
   induction t with
-  | const v => intro _ rest; simp [flatten, resolve, resolveItem, rflat]
+  | const v => intro _ rest; simp [flatten, resolve, resolveItem, rflat, RItem.nextGet]
   | path p =>
     intro _ rest
     simp only [flatten, List.cons_append, List.nil_append, resolve, rflat, resolveItem_path_next]
@@ -57,13 +66,13 @@ theorem resolve_flatten (elem root : Val) (t : Tm) :
     · subst hcount
       simp only [↓reduceIte] at hrest
       cases a with
-      | path p => simp [flatten, Op.cnt, resolve, resolveItem, rflat, Op.getLeft]
+      | path p => simp [flatten, Op.cnt, resolve, resolveItem, rflat, Op.getLeft, RItem.nextGet]
       | const v => simp [isPath] at hrest
       | app1 o' a' => simp [isPath] at hrest
       | app2 o' a' b' => simp [isPath] at hrest
     · simp only [hcount, ↓reduceIte] at hrest
       have hg := getLeft_ne_count o hcount
-      simp only [flatten, hc, ↓reduceIte, List.cons_append, resolve, resolveItem, Bool.false_eq_true, hg, rflat, hcount]
+      simp only [flatten, hc, ↓reduceIte, List.cons_append, resolve, resolveItem, Bool.false_eq_true, RItem.nextGet, hg, rflat, hcount]
       rw [iha hrest rest]
   | app2 o a b iha ihb =>
     intro hwf rest
@@ -71,7 +80,7 @@ theorem resolve_flatten (elem root : Val) (t : Tm) :
     obtain ⟨⟨hc, ha⟩, hb⟩ := hwf
     have hne : ¬ o.cnt = 1 := by omega
     have hg := getLeft_of_cnt2 o hc
-    simp only [flatten, hne, ↓reduceIte, List.cons_append, List.append_assoc, resolve, resolveItem, Bool.false_eq_true, hg, rflat]
+    simp only [flatten, hne, ↓reduceIte, List.cons_append, List.append_assoc, resolve, resolveItem, Bool.false_eq_true, RItem.nextGet, hg, rflat]
     rw [iha ha (flatten b ++ rest), ihb hb rest]
 
 theorem prod_append (a b : List RItem) :
@@ -80,9 +89,9 @@ theorem prod_append (a b : List RItem) :
   | nil => simp [prod]
   | cons it r ih =>
     cases it with
-    | op o => simp [prod, ih, List.flatMap_map, List.map_flatMap]
-    | val v => simp [prod, ih, List.flatMap_map, List.map_flatMap]
-    | multi vs => simp [prod, ih, List.flatMap_map, List.map_flatMap, List.flatMap_assoc]
+    | op o => simp [prod, ih, List.flatMap_map, List.map_flatMap, Function.comp_def]
+    | val v => simp [prod, ih, List.flatMap_map, List.map_flatMap, Function.comp_def]
+    | multi vs => simp [prod, ih, List.flatMap_map, List.map_flatMap, List.flatMap_assoc, Function.comp_def]
 
 theorem prod_path (elem root : Val) (p : Path) :
     prod [resolveItem elem root false (.path p)] = (Spec.candidates p elem root).map fun v => [SItem.val v] := by
@@ -94,7 +103,7 @@ theorem prod_path (elem root : Val) (p : Path) :
     | cons v r =>
       cases r with
       | nil => simp [prod]
-      | cons w r' => simp [prod]
+      | cons w r' => simp [prod, flatMap_single]
   · cases hs : Spec.sel p elem root with
     | nil => simp [prod]
     | cons v r => simp [prod]
@@ -159,8 +168,9 @@ theorem stackTrue_flattenS (rx : RxEngine) (c : Tm) :
   | error f => rw [hs] at h; cases h
   | ok vs =>
     rw [hs] at h
-    simp only [Except.map, Except.ok.injEq] at h
-    simp [h]
+    have h' : vs.headD .null = Spec.eval rx c := Except.ok.inj h
+    show Spec.isTrue (vs.headD .null) = _
+    rw [h']
 
 /-- per-element verdict of the repaired model on the program of a well-formed tree -/
 theorem matchElem_flatten (rx : RxEngine) (t : Tm) (hwf : t.wf = true) (elem root : Val) :
